@@ -367,6 +367,29 @@ def main(argv=None):
                 violations.append({'obligation': oname + ' (runtime sample)', 'replay': path, 'failed': rdoc.get('failed'),
                                    'inputs': rdoc.get('inputs'), 'outcome': rdoc.get('outcome'), 'result': rdoc.get('result')})
 
+    # ---- thorough tier: must-fail mutants (in-memory) and the Lean re-check of the schemas
+    selftest = None
+    lean = None
+    stamp = os.path.join(ROOT, 'build', 'lean.stamp')
+    if os.path.exists(stamp):
+        lean = {'stamp': open(stamp).read().strip()}
+    if a.tier == 'thorough' and not a.only:
+        try:
+            from pyvc.selftest import run as mrun
+            res = mrun(prop, None, min(a.j, 8))
+            selftest = {'mutants': len(res), 'killed': sum(1 for r in res if r['killed']),
+                        'survivors': [{'id': r['id'], 'what': r['what'], 'error': r.get('error')} for r in res if not r['killed']]}
+            for r in res:
+                if not r['killed']:
+                    print(f"SELFTEST-SURVIVOR {r['id']} ({r['what']}) {r.get('error', '')}")
+        except Exception as e:
+            selftest = {'error': f'{type(e).__name__}: {e}'}
+        try:
+            out = subprocess.run(['bash', os.path.join(ROOT, 'lean', 'check.sh')], capture_output=True, text=True, timeout=3000)
+            lean = {'rechecked': out.returncode == 0, 'tail': (out.stdout + out.stderr).strip().split('\n')[-1][-300:]}
+        except Exception as e:
+            lean = {'rechecked': False, 'error': str(e)}
+
     if a.update_baseline:
         ledger_all[prop] = sorted(d for d in discharged if d not in soft)
         ledger_all[prop + ':bounded'] = sorted([b['obligation'] for b in bounded] + list(soft))
@@ -422,6 +445,8 @@ def main(argv=None):
             'unsupported': unsupported, 'crashes': crashes,
             'symbolic_attempt_incomplete': incomplete_optional,
             'known_findings_reported': known_reported,
+            'selftest_must_fail_mutants': selftest,
+            'lean_schemas': lean,
             'crosscheck': {'functions': xc.get('functions'), 'inputs': xc.get('inputs'), 'agree': xc.get('agree'),
                            'disagreements': len(xc.get('disagreements', [])), 'skipped': xc.get('skipped'),
                            'unsupported': xc.get('unsupported', [])[:10],
